@@ -42,6 +42,9 @@ const (
 	kSubFT         = "SubFT"
 	kSetFT         = "SetFT"
 	kPrepare       = "Prepare"
+	kBind          = "AddERC20Binding"
+	kGetFT         = "GetFT"
+	kGetBinding    = "GetERC20Binding"
 )
 
 // journal-entry family of an op kind (used in signatures: which kinds of calls sat in
@@ -52,6 +55,7 @@ var family = map[string]string{
 	kSuicide: "suicide", kCreate: "create", kAddLog: "log", kAddRefund: "refund", kSubRefund: "refund",
 	kALAddr: "accesslist", kALSlot: "accesslist", kTransient: "transient", kReadAll: "read",
 	kReadCommitted: "read-committed", kAddFT: "ft", kSubFT: "ft", kSetFT: "ft", kPrepare: "prepare",
+	kBind: "binding", kGetFT: "ft-read", kGetBinding: "read-binding",
 }
 
 // familyOf: the FT mutators write a slot of the account's own storage (same journal entry
@@ -70,6 +74,35 @@ func familyOf(o Op) string {
 const ftName = "VERIF-TOK2" // a token name without ERC20 binding: FT mutators then use the account's own storage
 const slotFT = 3            // pseudo slot index of the FT key in the model / observation
 
+// A second, non-native token name that histories may bind to an ERC20 contract
+// (AddERC20Binding); FT calls with Op.S == 1 use it.  Amounts on it are multiples of 10^9 so
+// that a 9-decimal binding converts without remainder.
+const boundName = "VERIF-BOUND"
+const slotFTB = 4 // the holder's own FT slot for boundName (used while the name is unbound)
+const slotERC = 5 // the bound contract's balance slot of the holder
+const bindPos = 3 // mapping position of balances in the bound contract
+
+var ercKey []byte // storage key of the holder's balance in the bound contract (set at boot)
+
+var e9 = big.NewInt(1000000000)
+
+// bindCfg: which universe addresses play holder / bound contract / binding account.
+type bindCfg struct{ holder, contract, acct int }
+
+func ftNameOf(o Op) string {
+	if o.S == 1 {
+		return boundName
+	}
+	return ftName
+}
+
+func ftAmount(o Op) *big.Int {
+	if o.S == 1 {
+		return new(big.Int).Mul(big.NewInt(int64(o.V)), e9)
+	}
+	return big.NewInt(int64(o.V))
+}
+
 // Op is one call of the alphabet.  A,B index the address universe, S a slot/key, V a value
 // index, an amount or (RevertToSnapshot) the position of the target in the list of live ids.
 type Op struct {
@@ -82,11 +115,11 @@ type Op struct {
 
 // isQuery: calls that are queries by contract; they stay in place when the reverted segments
 // are deleted.  (SubFT/AddFT with amount 0 are not: they create the account object.)
-func (o Op) isQuery() bool { return o.K == kReadAll || o.K == kReadCommitted }
+func (o Op) isQuery() bool { return o.K == kReadAll || o.K == kReadCommitted || o.K == kGetBinding }
 
 func (o Op) usesAddr() bool {
 	switch o.K {
-	case kAddLog, kAddRefund, kSubRefund, kReadAll, kSnapshot, kRevert, kPrepare:
+	case kAddLog, kAddRefund, kSubRefund, kReadAll, kSnapshot, kRevert, kPrepare, kGetBinding:
 		return false
 	}
 	return true
@@ -124,7 +157,13 @@ func (o Op) str(u *universe) string {
 	case kRevert:
 		return fmt.Sprintf("RevertToSnapshot(live[%d])", o.V)
 	case kAddFT, kSubFT, kSetFT:
-		return fmt.Sprintf("%s(%s,%q,%d)", o.K, a(o.A), ftName, o.V)
+		return fmt.Sprintf("%s(%s,%q,%s)", o.K, a(o.A), ftNameOf(o), ftAmount(o))
+	case kGetFT:
+		return fmt.Sprintf("GetFT(%s,%q)", a(o.A), ftNameOf(o))
+	case kGetBinding:
+		return fmt.Sprintf("GetERC20Binding(%q)", boundName)
+	case kBind:
+		return fmt.Sprintf("AddERC20Binding(%q,%s,%d,%d)", boundName, a(o.A), bindPos, o.V)
 	}
 	return o.K + "()"
 }
@@ -140,8 +179,13 @@ func histStr(u *universe, h []Op) []string {
 // ---- concrete values -------------------------------------------------------------------
 
 func slotKey(s int) []byte {
-	if s == slotFT {
+	switch s {
+	case slotFT:
 		return utility.StrToBytes(common.GenerateFTKey(ftName))
+	case slotFTB:
+		return utility.StrToBytes(common.GenerateFTKey(boundName))
+	case slotERC:
+		return ercKey
 	}
 	k := make([]byte, 32)
 	k[31] = byte(s)
@@ -221,6 +265,8 @@ type universe struct {
 	// prep, if set, is run on every freshly opened instance and must end in Commit: the
 	// history then runs on the same (cache-warm, committed) AccountDB object.
 	prep func(st *account.AccountDB)
+	// bind, if set: the universe of the ERC20-binding slices (token queries are part of the observation)
+	bind *bindCfg
 }
 
 func (u *universe) open() *account.AccountDB {
@@ -303,11 +349,17 @@ func (x *impl) exec(u *universe, o Op, ft bool) {
 	case kReadCommitted:
 		st.GetCommittedState(u.addr[o.A], slotHash(o.S))
 	case kAddFT:
-		st.AddFT(u.addr[o.A], ftName, big.NewInt(int64(o.V)))
+		st.AddFT(u.addr[o.A], ftNameOf(o), ftAmount(o))
 	case kSubFT:
-		st.SubFT(u.addr[o.A], ftName, big.NewInt(int64(o.V)))
+		st.SubFT(u.addr[o.A], ftNameOf(o), ftAmount(o))
 	case kSetFT:
-		st.SetFT(u.addr[o.A], ftName, big.NewInt(int64(o.V)))
+		st.SetFT(u.addr[o.A], ftNameOf(o), ftAmount(o))
+	case kGetFT:
+		st.GetFT(u.addr[o.A], ftNameOf(o))
+	case kGetBinding:
+		st.GetERC20Binding(boundName)
+	case kBind:
+		st.AddERC20Binding(boundName, u.addr[o.A], bindPos, uint64(o.V))
 	case kSnapshot:
 		x.live = append(x.live, st.Snapshot())
 	case kRevert:
@@ -351,9 +403,16 @@ func obsKeys(u *universe, ft bool) []string {
 	for t := 0; t <= nTx; t++ {
 		out = append(out, fmt.Sprintf("GetLogs(tx%d)", t))
 	}
+	if b := u.bind; b != nil {
+		h, c := u.short[b.holder], u.short[b.contract]
+		out = append(out, "GetERC20Binding(tok)", "GetData("+h+",own-ft-slot)", "GetData("+c+",erc20-balance-slot)")
+	}
 	for i := range u.addr {
 		n := u.short[i]
 		out = append(out, "AddressInAccessList("+n+")", "SlotInAccessList("+n+",s1)", "SlotInAccessList("+n+",s2)", "GetTransientState("+n+",k1)")
+	}
+	if b := u.bind; b != nil {
+		out = append(out, "GetFT("+u.short[b.holder]+",tok)")
 	}
 	return out
 }
@@ -386,6 +445,11 @@ func observe(st *account.AccountDB, u *universe, ft bool) []string {
 		}
 		out = append(out, strings.Join(lg, ";"))
 	}
+	if b := u.bind; b != nil {
+		found, c, pos, dec := st.GetERC20Binding(boundName)
+		out = append(out, bindStr(found, c, pos, dec),
+			hexs(st.GetData(u.addr[b.holder], slotKey(slotFTB))), hexs(st.GetData(u.addr[b.contract], slotKey(slotERC))))
+	}
 	for _, a := range u.addr {
 		out = append(out, bstr(st.AddressInAccessList(a)))
 		for s := 1; s <= 2; s++ {
@@ -395,7 +459,16 @@ func observe(st *account.AccountDB, u *universe, ft bool) []string {
 		t := st.GetTransientState(a, transKey(1))
 		out = append(out, hexs(t[:]))
 	}
+	if b := u.bind; b != nil {
+		// last: on a bound name GetFT makes the AccountDB create the contract's account object
+		// if it does not exist (journaled, also on the unchanged tree)
+		out = append(out, st.GetFT(u.addr[b.holder], boundName).String())
+	}
 	return out
+}
+
+func bindStr(found bool, c common.Address, pos, dec uint64) string {
+	return fmt.Sprintf("%v %x %d %d", found, c[:], pos, dec)
 }
 
 // ---- probes: what a LATER call gets ---------------------------------------------------------
@@ -411,6 +484,9 @@ const probeLog = 9
 
 func probeKeys(u *universe) []string {
 	out := []string{"NextRefund()"}
+	if u.bind != nil {
+		out = []string{"NextFT(" + u.short[u.bind.holder] + ",tok)", "NextRefund()"}
+	}
 	for i := range u.addr {
 		out = append(out, "NextAccessList("+u.short[i]+")")
 	}
@@ -426,6 +502,11 @@ func probeKeys(u *universe) []string {
 
 func probe(st *account.AccountDB, u *universe) []string {
 	var out []string
+	if b := u.bind; b != nil {
+		// one more FT write on the token and what the holder's balance is then
+		st.AddFT(u.addr[b.holder], boundName, e9)
+		out = append(out, st.GetFT(u.addr[b.holder], boundName).String())
+	}
 	st.AddRefund(1)
 	out = append(out, strconv.FormatUint(st.GetRefund(), 10))
 	for _, a := range u.addr {
@@ -452,7 +533,13 @@ func probe(st *account.AccountDB, u *universe) []string {
 }
 
 func (m *model) probe(u *universe) []string {
-	out := []string{strconv.FormatUint(m.Refund+1, 10)}
+	var out []string
+	if b := u.bind; b != nil {
+		mc := m.clone()
+		mc.apply(Op{K: kAddFT, A: b.holder, S: 1, V: 1})
+		out = append(out, mc.getFT(b.holder, 1, false).String())
+	}
+	out = append(out, strconv.FormatUint(m.Refund+1, 10))
 	for i := range u.addr {
 		out = append(out, "true "+bstr(m.ALAddr[i] && m.ALSlot[[2]int{i, 1}])+" true")
 	}
@@ -518,6 +605,14 @@ func (m *model) observe(u *universe, ft bool) []string {
 		}
 		out = append(out, strings.Join(lg, ";"))
 	}
+	if b := u.bind; b != nil {
+		if m.Bound {
+			out = append(out, bindStr(true, u.addr[b.contract], bindPos, m.BoundDec))
+		} else {
+			out = append(out, bindStr(false, common.Address{}, 0, 0))
+		}
+		out = append(out, hexs(m.Acct[b.holder].Store[slotFTB]), hexs(m.Acct[b.contract].Store[slotERC]))
+	}
 	for i := range u.addr {
 		out = append(out, bstr(m.ALAddr[i]))
 		for s := 1; s <= 2; s++ {
@@ -526,13 +621,16 @@ func (m *model) observe(u *universe, ft bool) []string {
 		t := transVal(m.Trans[[2]int{i, 1}])
 		out = append(out, hexs(t[:]))
 	}
+	if b := u.bind; b != nil {
+		out = append(out, m.getFT(b.holder, 1, false).String())
+	}
 	return out
 }
 
 // initModel reads the start state once through the plain accessors.
 func initModel(u *universe, ft bool) *model {
 	st := u.open()
-	m := &model{}
+	m := &model{bind: u.bind}
 	n := len(u.addr)
 	m.Acct = make([]mAcct, n)
 	m.Bal = make([]*big.Int, n)
@@ -545,7 +643,7 @@ func initModel(u *universe, ft bool) *model {
 		acc.Exists = st.Exist(a)
 		acc.Nonce = st.GetNonce(a)
 		acc.Code = append([]byte(nil), st.GetCode(a)...)
-		for _, s := range []int{1, 2, slotFT} {
+		for _, s := range []int{1, 2, slotFT, slotFTB, slotERC} {
 			if v := st.GetData(a, slotKey(s)); len(v) > 0 {
 				acc.Store[s] = append([]byte(nil), v...)
 			}
